@@ -54,7 +54,8 @@ def cases(draw):
         b = min(min(lim, 4), a + draw(st.integers(0, 4)))
     grid = draw(st.integers(0, 2)) == 0 and not oversize
     p = {"meth": meth, "w": w, "sub": sub, "H": H, "W": W, "left": left, "right": right, "nb": nb,
-         "band": draw(st.integers(0, nb - 1)), "valid": conv[0], "nodata": conv[1],
+         "band": draw(st.integers(0, nb - 1)), "right_perm": draw(st.permutations(list(range(nb)))),
+         "valid": conv[0], "nodata": conv[1],
          "mask_left": draw(gen.sparse_mask(H, W)), "mask_right": draw(gen.sparse_mask(H, W)),
          "disp": [a, b], "oversize": oversize}
     if grid:
@@ -79,16 +80,19 @@ def body(ctx: Ctx, p: dict) -> None:
     else:
         dmin, dmax = p["disp"]
     mc = {"matching_cost_method": p["meth"], "window_size": p["w"], "subpix": p["sub"]}
-    bands = None
+    bands = right_bands = None
     if nb > 1:
         bands = BANDS[:nb]
         mc["band"] = bands[p["band"]]
-        Lin, Rin = L, R
+        # the right file may store its bands in another order: bands are selected by name, on each image
+        perm = p.get("right_perm", list(range(nb)))
+        right_bands = [bands[i] for i in perm]
+        Lin, Rin = L, R[perm]
     else:
         Lin, Rin = L[0], R[0]
     try:
         res = drive.run_pipeline(Lin, Rin, {"matching_cost": mc}, (dmin, dmax), msk_left=ML, msk_right=MR, bands=bands,
-                                 valid=p["valid"], nodata=p["nodata"])
+                                 right_bands=right_bands, valid=p["valid"], nodata=p["nodata"])
     except Exception as exc:  # noqa: BLE001
         if p["oversize"] and max(abs(p["disp"][0]), abs(p["disp"][1])) > W - p["w"]:
             ctx.violation("C02/disparity-beyond-image-overlap-raises",
@@ -136,6 +140,8 @@ def body(ctx: Ctx, p: dict) -> None:
         classes.append("grid")
     if nb > 1:
         classes.append("multiband")
+        if p.get("right_perm", list(range(nb))) != list(range(nb)):
+            classes.append("right-band-order-differs")
     if p["w"] == 1:
         classes.append("window1")
     if p["oversize"]:
